@@ -38,7 +38,7 @@ func (c13) Describe() engine.Info {
 	return engine.Info{
 		Rule: "scenario = 1..3 frames with 0..8 LCDC writes (bit 7 toggled or kept; other bits random) at uniformly random cycles or placed by the reference counter at a mode boundary -1/0/+1 of a random line, plus 0..6 noise writes to FF44/FF41/FF45/FF42/FF43/FF4A/FF4B. Class sweep: the LCD is switched off at every cycle offset of a line (index selects line and offset) and on again after a random pause. " +
 			"Oracle: LY and STAT mode after every machine cycle equal the reference line/mode counter (first line 112 cycles, then 114; modes 2/3/0 = 20/41/53; 10 lines of mode 1; off => LY 0, mode 0 at once). Signature = (event kind, reference mode at the event, line class, position class)." +
-			" Half of the random scenarios add video noise (objects on most lines, scroll/window/palette writes placed around mode boundaries, LCDC rewrites keeping bit 7 - also inside the shortened first line). Environment dimensions as C12. Class long-on: LCD on for 257..262 frames without a restart; class ly-store: stores to LY within two cycles of the start of lines 0,1,2,143,144,145,152,153 with the LCD on throughout (also mixed into the noise). Noise also rewrites LCDC (LCD left on) within the first line after every switch-on and at power-on.",
+			" Half of the random scenarios add video noise (objects on most lines, scroll/window/palette writes placed around mode boundaries, LCDC rewrites keeping bit 7 - also inside the shortened first line). Environment dimensions as C12. Class long-on: LCD on for 257..262 frames without a restart; class ly-store: stores to LY within two cycles of the start of lines 0,1,2,143,144,145,152,153 with the LCD on throughout (also mixed into the noise). Noise also rewrites LCDC (LCD left on) within the first line after every switch-on and at power-on. Class short-power-cycles: the LCD on for 1..130 cycles (mostly 56..66), off and on again, several times over.",
 		Assumptions:    []string{"a write at boundary b is the guest write in cycle b+1", "mode 3 length is the fixed 41 cycles of the statement"},
 		RequiredProbes: []string{"lcd_off_in_mode2", "lcd_off_in_mode3", "lcd_off_in_mode0", "lcd_off_in_mode1", "lcd_on", "ly_write_while_on", "lcdc_rewritten_on_during_a_line_0", "frame_wrap"},
 		RealComponents: realComponents, StubComponents: stubComponents,
